@@ -60,6 +60,7 @@ class Ctx:
         self.samples: List[Any] = []
         self.violations: List[Dict[str, Any]] = []
         self.known_hits: Dict[str, int] = {}
+        self._per_key: Dict[str, int] = {}
         self.sections: Dict[str, Any] = {}
         self.assumptions: List[str] = []
         self.rule = ""
@@ -115,7 +116,8 @@ class Ctx:
             if f["key"] == key:
                 self.known_hits[key] = self.known_hits.get(key, 0) + 1
                 return
-        if len(self.violations) < 200:
+        self._per_key[key] = self._per_key.get(key, 0) + 1
+        if self._per_key[key] <= 20:
             self.violations.append({"key": key, "what": what, "detail": jsonable(detail)})
         else:
             self.violations.append({"key": key, "what": what})
